@@ -20,11 +20,11 @@ Theorem C03_lookup_sound : forall t host tls uri m globoff c,
 Proof. exact lookup_sound. Qed.
 Print Assumptions C03_lookup_sound.
 
-(* If any candidate exists the request is routed (outside regions 1, 5, 6). *)
+(* If any candidate exists the request is routed (outside regions 5, 6; region 1 was
+   repaired in /repo by 3f5e3c8 and is no longer excluded). *)
 Theorem C03_lookup_complete : forall t host tls uri m globoff c,
   wf_keys t -> NoDup (keys t) ->
   F_C03_gobwas_overlap globoff tls m t host uri = false ->
-  F_C03_upper_host_noglob globoff host = false ->
   In c (all_routes t) -> is_candidate globoff tls m host uri c = true ->
   lookup t host tls uri m globoff <> None.
 Proof. exact lookup_complete. Qed.
@@ -61,7 +61,7 @@ Print Assumptions C03_rhp_stable_nocolon.
    Domain: [table_ok] = host keys lower-case (addRoute lower-cases them), pairwise distinct
    (a Go map), without ':' (no explicit port in the key; keys with ports are covered by the
    correspondence run only), routes sorted as NewTable sorts them; [region ... = None] =
-   none of the six finding regions applies; [host_bytes_ok] = every byte of the normalised
+   none of the five open finding regions (2-6) applies; [host_bytes_ok] = every byte of the normalised
    Host is above '*' in byte order (letters, digits, '-', '.', ':' all are). *)
 
 (* THE PROPERTY on the domain: what Lookup returns satisfies the brute-force specification:
@@ -127,11 +127,17 @@ Print Assumptions C03_new_table_ok.
 (* ---- refutations: the unchanged code violates the property here (witnesses) ---- *)
 Local Open Scope string_scope.
 
+(* F-C03-1, REPAIRED in /repo by 3f5e3c8 ("fix: upper-case Host header matches no route when
+   glob matching is disabled"): the statement is about the code before the repair
+   ([lookup_noglob_unrepaired], host not lower-cased); the last conjunct shows that the
+   current [lookup] routes the same request. *)
 Theorem C03_noglob_upper_host_refuted :
-  ex_refuted [(bs "foo.com", bs "/", 0)] (bs "FOO.com") false (bs "/") MPrefix true None
+  let t := new_table [(bs "foo.com", bs "/", 0)] in
+  lookup_noglob_unrepaired t (bs "FOO.com") false (bs "/") MPrefix = None
+  /\ spec_b t true false MPrefix (bs "FOO.com") (bs "/") None = false
   /\ F_C03_upper_host_noglob true (bs "FOO.com") = true
-  /\ candidates (new_table [(bs "foo.com", bs "/", 0)]) true false MPrefix (bs "FOO.com") (bs "/")
-     = [(bs "foo.com", bs "/", 0)].
+  /\ candidates t true false MPrefix (bs "FOO.com") (bs "/") = [(bs "foo.com", bs "/", 0)]
+  /\ lookup t (bs "FOO.com") false (bs "/") MPrefix true = Some (bs "foo.com", bs "/", 0).
 Proof. exact noglob_upper_host_refuted. Qed.
 Print Assumptions C03_noglob_upper_host_refuted.
 
